@@ -4,7 +4,8 @@ from props.common import TRUSTED_BASE, ASSUMPTIONS as _A
 
 ID = 'C08'
 LEAN_MODULES = ['HidVerif.Props.C08']
-THEOREMS = ['HidVerif.Props.C08.' + n for n in ('call_restores_fp', 'static_pop_restores_ap', 'alloc_release_restores', 'stop_handler_restores')]
+THEOREMS = ['HidVerif.Props.C08.' + n for n in ('call_restores_fp', 'static_pop_restores_ap', 'alloc_release_restores', 'stop_handler_restores',
+                                                'core_scope_exit_restores_frame')]
 TRUSTED = TRUSTED_BASE + ['Sphinx/Monitor.lean ap-drift monitor (ap must be the same at every arrival at a loop head within one activation)']
 ASSUMPTIONS = _A + ['the compile-time bookkeeping of the generator (static vs dynamic pop, reset_ap targets) is validated, not proved']
 RULE = ('scope-stress generator (literal/dynamic/passed arrays in nested scopes inside loops; fall-through, break, continue, return, try/undo, '
@@ -50,6 +51,9 @@ def run(ctx):
         for tt in (False, True):
             j, _ = suites.gen_jobs(ctx, n // 2, tt=tt, w=w, faults=0.0, prefix='g%d%s' % (w, 't' if tt else 's'), fuel=300000)
             jobs += j
+    # the verified core (C08.core_scope_exit_restores_frame is about Compiler/Core.lean): its tie to the real compiler, and the same
+    # programs under the monitor
+    jobs += suites.core_suite(ctx, ctx.budget(80, 1200), configs=((2, 100, False), (4, 30, False), (3, 40, False)), faults=0.0)
     cases, rej = suites.compile_cases(jobs)
     for c in cases: c['opts'] = c['opts'] + ['mon']
     res = hidlib.run_parallel(cases)
@@ -69,7 +73,7 @@ def run(ctx):
                                            vm=suites.describe(r['vm']), reference=suites.describe(r['src'])))
         elif k == 'agree': agree += 1
     ctx.stats['monitored'] = dict(programs=len(cases), findings=drift, agree=agree)
-    ctx.stats['evaluations'] = len(cases) + len(base)
+    ctx.stats['evaluations'] = ctx.stats.get('evaluations', 0) + len(cases) + len(base)
     ctx.stats['distinct_nontrivial'] = ok + agree
     ctx.say('monitored runs: %d programs, %d findings' % (len(cases), drift))
     ctx.samples.append(dict(program=progs[0][0][:900]))
